@@ -638,19 +638,18 @@ Definition render_from_join_marker (pid : string) (idx : nat) : M output :=
                             end
                   end);
       do '(txt, j, ds) <- render_content toks;
-      let '(_, _, rds) := split_dirs ds in
-      let all_ds := ds in
-      do chs <- filter_choices
-                  (map (fun c => (c, None, false))
-                       (filter (fun c => Nat.eqb (ch_section c) (S idx)) (choices p))) (S idx);
-      ret (mkOut txt chs pid
-                 (* every directive collected between the markers is handed on as a render directive *)
-                 (map (fun d => match d with
-                                | DRender r => r
-                                | DInput a => RDError "input"%string ""%string
-                                | DChoice c _ => RDError "choice"%string ""%string
-                                end) all_ds)
-                 [] j)
+      (* the same split as in render_passage *)
+      let '(cds, ins, rds) := split_dirs ds in
+      (* section_candidates: the passage-level choices written in section idx+1, then the choices that the
+         @if/@for blocks of this section's text just produced.  The loop over them has NO section test (the
+         passage-level ones were selected by their section just above, the block ones are taken as they come):
+         flag true with section 0 is filter_choices without its section test (dir_section _ true = 0). *)
+      let cands := (map (fun c => (c, None, true))
+                        (filter (fun c => Nat.eqb (ch_section c) (S idx)) (choices p)) ++
+                    map (fun ct => (fst ct, snd ct, true)) cds)%list in
+      do chs <- filter_choices cands 0;
+      (* no passage-level input_directives here, unlike render_passage *)
+      ret (mkOut txt chs pid rds ins j)
   end.
 
 Definition ends_with_newline (s : string) : bool := endswith s (String "010"%char EmptyString).
